@@ -856,6 +856,8 @@ class Engine(Interp):
         rtags = tuple(self.rtag(st, a) for a in args)
         st.log('user', callee['def'], rtags)
         self.stats['user_calls'] += 1
+        if getattr(self, 'track_fmt', False) and rtags and callee['def'].startswith('core::fmt::') and callee['def'].endswith('::fmt'):
+            self.fmt_note(st, rtags[0])      # the element's own Display / Debug code is called directly
         if callee.get('trait') in FN_TRAITS:
             self.note_asked(st, args[1:])
             if getattr(self, 'track_adv', False):
@@ -888,6 +890,45 @@ class Engine(Interp):
         g = st.ghost.get(key)
         t = g[0] if g is not None else 0
         st.ghost[key] = (slots.plus(st, t, 1), ())
+
+    def fmt_note(self, st, tag):
+        """a value is handed to the formatter (roots whose rendering is tracked, C19): when it is (part of) a stored
+        element, the run of rendered slots and the per-projection counters in the abstract state are updated"""
+        if not getattr(self, 'track_fmt', False):
+            return
+        found = []
+
+        def walk(t, d=0):
+            if isinstance(t, tuple) and d < 8:
+                if len(t) == 4 and t[0] in ('slot', 'pair') and isinstance(t[1], str) and isinstance(t[3], (tuple, list)):
+                    found.append(t)
+                    return
+                for x in t:
+                    walk(x, d + 1)
+        walk(tag)
+        for t in found[:2]:
+            mid, idx, sub = t[1], t[2], tuple(t[3])
+            if mid not in st.maps:
+                continue
+            k0, k1, kb, kl = ('span0', mid), ('span1', mid), ('spanbad', mid), ('spanlen', mid)
+            g0, g1 = st.ghost.get(k0), st.ghost.get(k1)
+            z = st.zone
+            if g0 is None or g1 is None:
+                st.ghost[k0] = (idx, ())
+                st.ghost[k1] = (slots.plus(st, idx, 1), ())
+                self.ghost_bump(st, kl)
+            elif z.entails_eq(g1[0], idx, 1) or z.entails_eq(g0[0], idx):
+                pass                                    # (another part of the element rendered last, at either end)
+            elif z.entails_eq(idx, g1[0]):
+                st.ghost[k1] = (slots.plus(st, idx, 1), ())
+                self.ghost_bump(st, kl)
+            elif z.entails_eq(g0[0], idx, 1):
+                st.ghost[k0] = (idx, ())
+                st.ghost[('spandown', mid)] = (0, ())
+                self.ghost_bump(st, kl)
+            else:
+                st.ghost[kb] = (0, ())
+            self.ghost_bump(st, ('fmtn', mid, sub[:1]))
 
     def note_asked(self, st, args):
         """a user callable is called with a reference to a stored element: where that is tracked (retain), it
